@@ -175,6 +175,29 @@ def write_replay(prop, seed, n, payload):
     return path
 
 
+IMPL_COVERAGE = None
+
+
+def impl_coverage_report():
+    """line/branch coverage of /repo/src/mqtt reached by this run's campaign (thorough tier)"""
+    cov = IMPL_COVERAGE
+    if cov is None:
+        return None
+    try:
+        cov.stop()
+        out = {}
+        for f in sorted(cov.get_data().measured_files()):
+            an = cov._analyze(f)
+            nums = an.numbers
+            out[os.path.relpath(f, '/repo')] = dict(statements=nums.n_statements, missed=nums.n_missing,
+                                                   branches=nums.n_branches, partial_branches=nums.n_partial_branches,
+                                                   missing_lines=sorted(an.missing)[:80])
+        tot_s = sum(v['statements'] for v in out.values()); tot_m = sum(v['missed'] for v in out.values())
+        return dict(files=out, statements=tot_s, missed=tot_m, line_rate=round(1 - tot_m / max(1, tot_s), 4))
+    except Exception as e:
+        return dict(error=repr(e))
+
+
 def run_check(prop, tier, seed, campaign, replay=None):
     """campaign(ctx) -> Result. ctx: dict(tier, seed, model_ok, prop)"""
     t0 = time.time()
@@ -265,6 +288,9 @@ def run_check(prop, tier, seed, campaign, replay=None):
     )
     if rechecked is not None:
         cov['kernel_recheck'] = rechecked
+    ic = impl_coverage_report()
+    if ic is not None:
+        cov['impl_coverage_of_this_campaign'] = ic
     if res.exhaustive is not None:
         cov['exhaustive'] = res.exhaustive
     cov.update(res.extra)
